@@ -100,6 +100,7 @@ HiddenSucc(SS) ==
   \cup {SupBroadcastE(SS, s) : s \in {x \in Sups : SupBroadcastG(SS, x)}}
   \cup {SupClosedE(SS, s) : s \in {x \in Sups : SupClosedG(SS, x)}}
   \cup {SupExitE(SS, s) : s \in {x \in Sups : SupExitG(SS, x)}}
+  \cup {StopTellE(SS, s) : s \in {x \in Sups : StopTellG(SS, x)}}
   \cup (IF TakeSignalG(SS) THEN {TakeSignalE(SS)} ELSE {})
   \cup (IF PrimaryGoneG(SS) THEN {PrimaryGoneE(SS)} ELSE {})
   \cup (IF ExecSendG(SS) THEN {ExecSendE(SS)} ELSE {})
